@@ -12,13 +12,17 @@ res=json.load(open(resp)) if os.path.exists(resp) else {}
 try:
     for d in sorted(os.listdir(V+'/seeded')):
         mp=V+'/seeded/'+d+'/meta.json'
-        if not os.path.exists(mp) or (only and d not in only): continue
+        if not os.path.exists(mp) or (only and d not in only) or (not only and d in res and res[d].get('exit')==1): continue
         m=json.load(open(mp)); prop=m['breaks_property']
         subprocess.check_call(['git','-C',WT,'checkout','-q','--','.'])
         if subprocess.run(['git','-C',WT,'apply',V+'/seeded/'+d+'/patch.diff']).returncode!=0:
             res[d]={'exit':None,'caught_by':'PATCH DOES NOT APPLY ON CURRENT HEAD'}; continue
         env=dict(os.environ,VERIF_FAIL_FAST='1',VERIF_DIR=V,VERIF_REPO=WT,VERIF_EVIDENCE_DIR='/tmp/seedrun-evidence',VERIF_REPLAY_DIR='/tmp/seedrun-replays/'+d)
         p=subprocess.run([V+'/bin/gosmt','check','--property',prop,'--tier','quick'],env=env,capture_output=True,text=True)
+        if p.returncode==2:
+            # nothing reproduced in fail-fast mode: the full check decides
+            env.pop('VERIF_FAIL_FAST')
+            p=subprocess.run([V+'/bin/gosmt','check','--property',prop,'--tier','quick'],env=env,capture_output=True,text=True)
         obs=sorted(set(re.findall(r'^  violated: (\S+) in (\S+)',p.stdout,flags=re.M)))
         caught=', '.join('`%s` (%s)'%(o,h) for o,h in obs) if p.returncode==1 else ('NOT CAUGHT (exit %d)'%p.returncode)
         if p.returncode==2:
